@@ -7,7 +7,7 @@ from ..flow import Aff, Facts, cmp_to_constraints
 
 META = {
     'design_ref': 'DESIGN.md §5 C06',
-    'technique': 'bounded-read proof (path enumeration on the CFG of the normalised function -- helpers inlined, aliases substituted -- with Fourier-Motzkin entailment of 0 <= size <= end-cur at every call on the underlying file), dominance/post-dominance rules for the seek-before / tell-after discipline, table agreement of the header cuts (slices or struct formats) with ar(5), parity evaluation of the padding skip over sentinel-loop idioms, seek/tell interpreted on integer-affine values with linear path facts for each whence value (sa.affinterp), truthiness of the loop sentinel; read(size) interpreted on affine values per region of (size, end - cur) against the in-memory-file reference; iterator interpreted on a three-line member; readlines(hint) interpreted against io.IOBase.readlines; result of seek on affine values; the member-name expression of the header paths evaluated on symbolic GNU / BSD name fields; every raising path of seek implies a target in front of the member; histories of up to three calls on two members behind one model file object interpreted against io.BytesIO',
+    'technique': 'bounded-read proof (path enumeration on the CFG of the normalised function -- helpers inlined, aliases substituted -- with Fourier-Motzkin entailment of 0 <= size <= end-cur at every call on the underlying file), dominance/post-dominance rules for the seek-before / tell-after discipline, table agreement of the header cuts (slices or struct formats) with ar(5), parity evaluation of the padding skip over sentinel-loop idioms, seek/tell interpreted on integer-affine values with linear path facts for each whence value (sa.affinterp), truthiness of the loop sentinel; read(size) interpreted on affine values per region of (size, end - cur) against the in-memory-file reference; iterator interpreted on a three-line member; readlines(hint) interpreted against io.IOBase.readlines; result of seek on affine values; the member-name expression of the header paths evaluated on symbolic GNU / BSD name fields; every raising path of seek implies a target in front of the member; histories of up to three calls on two members behind one model file object interpreted against io.BytesIO; the private attributes of the member class are recognised by role (the file object whose seek is called, the cursor it is positioned to, start / end / size where the member is made) and renamed to the vocabulary of the rules',
     'level_text': 'Static decision on every path of ArMember.read/readline/readlines/seek/tell and of the header walk: no call can '
                   'return a byte outside the member, every read is preceded by a seek to the member\'s own cursor and followed by a '
                   'cursor update, the header fields are cut at the ar(5) offsets, odd sizes skip one padding byte, seek/tell '
@@ -1203,7 +1203,12 @@ def canonical_member_names(src):
             elif isinstance(v, ast.BinOp) and isinstance(v.op, ast.Add) and priv(v.left, made[0]) and priv(v.right, made[0]) and priv(v.left, made[0]) == roles.get('__offset'):
                 roles.setdefault('__end', priv(st.targets[0], made[0]))
                 roles.setdefault('__size', priv(v.right, made[0]))
-    missing = [r_ for r_ in ('__fp', '__cur', '__fname', '__offset', '__end', '__size') if r_ not in roles]
+    # (a role whose attribute already has the name the rules use needs no recognition: only what was renamed has to be found)
+    present = {n.attr for n in ast.walk(mod.classes[cname]) if isinstance(n, ast.Attribute)}
+    for r_ in ('__fp', '__cur', '__fname', '__offset', '__end', '__size'):
+        if r_ in present and r_ not in roles.values():
+            roles[r_] = r_
+    missing = [r_ for r_ in ('__fp', '__cur', '__offset', '__end') if r_ not in roles]
     if missing:
         raise AnalysisError('%s:%s: the attribute in the role of %s is not recognised (seek(cursor) in read, tell() / start + size in from_file)' % (M, cname, ', '.join(missing)))
     if len(set(roles.values())) != len(roles):
